@@ -250,6 +250,12 @@ def check(ctx):
     g = cfg_of(inc)
     up = g.find(lambda n: isinstance(n, ast.Call) and dotted(n.func) == 'struct.unpack' and fold_in(inc, n.args[0]) == '<Bf')
     itu = g.find(lambda n: isinstance(n, ast.Call) and dotted(n.func) == 'struct.iter_unpack' and len(n.args) == 2 and fold_in(inc, n.args[0]) == '<Bf')
+    # any record decoder of the range branch, whatever its format: a 5-byte record read with another layout (signed anchor id '<bf')
+    # is a verdict, not a missing anchor
+    other = [(n_, c_) for n_, c_ in g.find(lambda n: isinstance(n, ast.Call) and dotted(n.func) in ('struct.iter_unpack', 'struct.unpack', 'struct.unpack_from'))
+             if fact_key('pk_type == self.RANGE_STREAM_REPORT', True) in g.fact_keys_at(n_)]
+    fmts_ = sorted({str(fold_in(inc, c_.args[0])) for _, c_ in other})
+    ctx.inst('R6', inc, 'range-record-format', bool(other) and fmts_ == ['<Bf'], 'range records are <Bf (unsigned anchor id, float distance); formats used in the range branch: %s' % fmts_)
     if not up and len(itu) == 1:
         # the library's own record iterator: dict(struct.iter_unpack('<Bf', data)) walks the payload in 5-byte records, in order, and
         # builds a dictionary of its own from the (anchor id, distance) pairs
